@@ -376,6 +376,7 @@ pub fn run_case(case: &Case) -> CaseResult {
 				seek_gran: 4,
 				fail_decode: vec![],
 				fail_seek: vec![],
+				fail_sticky: false,
 			},
 			None,
 			&settings,
